@@ -273,6 +273,9 @@ def e2e_cases(ctx, rng, count):
                 opts["start"] = loc.strftime("%Y-%m-%dT%H:%M:%S") + f"{'%2B' if off >= 0 else '-'}{abs(off) // 60:02d}:{abs(off) % 60:02d}"
             else:
                 opts["start"] = st_.strftime("%Y-%m-%dT%H:%M:%SZ")
+        elif i % 11 == 7:
+            # a very old stream: segment numbers beyond 2^32
+            opts["start"] = rng.choice(["1000-01-01T00:00:00Z", "0100-06-01T12:00:00Z", "1479-12-31T23:59:59Z"])
         else:
             opts["start"] = start
         # (`year` is the server default: the calendar cases leave it out of the URL half of the time)
